@@ -248,7 +248,7 @@ class Gen:
 
     def funlike_flat(self):
         """the fragment of C03_funlike_partial: object-like + fixed-arity function-like macros without # / ##,
-        no function-like name in replacement lists; invocations with flat arguments free of macro names"""
+        no function-like name in replacement lists; invocations with flat arguments (object-like names allowed)"""
         r = self.r
         objs = r.sample(["A", "B", "C", "N"], r.randint(0, 3))
         funs = r.sample(["F", "G", "H"], r.randint(1, 2))
@@ -271,7 +271,7 @@ class Gen:
             c = r.random()
             if c < 0.7:
                 f = r.choice(funs)
-                args = [" ".join(r.choice(["1", "7", "p", "q", "+", "-"]) for _ in range(r.choice([0, 1, 1, 2])))
+                args = [" ".join(r.choice(["1", "7", "p", "q", "+", "-"] + objs * 2) for _ in range(r.choice([0, 1, 1, 2])))
                         for _ in range(arity[f])]
                 parts.append(f + r.choice(["", " "]) + "(" + r.choice([",", ", ", " , "]).join(args) + ")")
             else:
